@@ -411,6 +411,7 @@ theorem applyAct_erase (s : State) (fh fw : List Nat) (a : Act) (hs : a.shared) 
         | uninit => rfl
         | cnt n => cases n <;> simp [Obj.erase] <;> rfl
   case setPanic q => esimp; cases s.useRoot q <;> rfl
+  case setShallow q => esimp; cases s.useRoot q <;> rfl
   case upgradeField k =>
     esimp
     cases nthMod fw k with
@@ -458,6 +459,11 @@ theorem applyAct_erase (s : State) (fh fw : List Nat) (a : Act) (hs : a.shared) 
               | uninit => simp [hst] at h
               | cnt n => simp [hst] at h; rw [h]
             simp only [h1, h1', ne_eq, not_false_eq_true, if_true]
+            by_cases hsh : v.shallow = true
+            · simp only [hsh, if_true]
+              esimp
+            · simp only [hsh, Bool.false_eq_true, if_false]
+              esimp
 
 end Sim
 
@@ -756,7 +762,11 @@ theorem applyAct_std (s : State) (fh fw : List Nat) (a : Act) (hs : a.shared) (h
           have hvok := (std_cell h hc).2.2 _ hv
           split
           · refine std_push (std_emit (s := _) ?_ _) _ (by simp [Frame.ok])
-            re (std_alloc (std_cloneHandles h v) { v with vid := s.nextVid } hvok)
+            by_cases hsh : v.shallow = true
+            · simp only [hsh, if_true]
+              re (std_alloc h { v with vid := s.nextVid, held := [], weaks := [], shallow := true } hvok)
+            · simp only [hsh, Bool.false_eq_true, if_false]
+              re (std_alloc (std_cloneHandles h v) { v with vid := s.nextVid, shallow := false } hvok)
           · split
             · refine std_emit (std_giveUp (s := _) ?_ _) _
               re (std_alloc h v hvok)
@@ -807,6 +817,10 @@ theorem applyAct_std (s : State) (fh fw : List Nat) (a : Act) (hs : a.shared) (h
       · exact std_fail h _
     · exact h
   case setPanic q =>
+    split
+    · exact std_modVal h _ _ (fun _ hv => hv)
+    · exact std_badRoot h q
+  case setShallow q =>
     split
     · exact std_modVal h _ _ (fun _ hv => hv)
     · exact std_badRoot h q
